@@ -1,9 +1,11 @@
 CONSTANTS
   Addrs = {1, 2, 3, 4}
   Keeps = {99, 0, 1, 2}
-  Vals = {1, 2}
+  Vals = {1}
   Variant = "nopop"
-  MaxAllocs = 5
+  MaxDepth = 2
+  Throws = {FALSE, TRUE}
+  MaxAllocs = 4
 SPECIFICATION Spec
 CONSTRAINT Bound
 INVARIANTS NeverHandsOutInUse CtorDtorBalanced ParkedSound ParkedBounded NoWildAccess
